@@ -139,3 +139,18 @@ Theorem import_names_ids_unique : forall d b, import d = Ok b ->
     (d_messages d) (b_messages b).
 Proof. exact ProofsIds.import_names_ids_unique. Qed.
 Print Assumptions import_names_ids_unique.
+
+(* messages with exactly one multiplexor switch (of a non-negative size, as the parser delivers): every
+   signal of the file is present with the file's ABSOLUTE start position (multiplexed signals included:
+   switch position + selector width + relative position) and the switch is a multiplexer whose SELECTOR
+   WIDTH is the file's size *)
+Theorem import_simple_mux_abs : forall d b, import d = Ok b ->
+  Forall2 (fun dm m =>
+    forall mid dmx, one_muxor dm mid dmx -> 0 <= ds_size dmx ->
+    forall id ds, In (id, ds) (index_from 0 (sorted_signals dm)) ->
+      exists s, In s (m_signals m) /\ s_id s = id /\ s_name s = ds_name ds /\
+                abs_start (length (m_signals m)) (m_signals m) s = get_start_bit ds /\
+                (id = mid -> s_kind s = KMux /\ sel_width s = ds_size ds))
+    (d_messages d) (b_messages b).
+Proof. exact ProofsIds.import_simple_mux_abs. Qed.
+Print Assumptions import_simple_mux_abs.
